@@ -1,7 +1,8 @@
 """C16 - onNote/onCycle/onTime reservations and .Random act on the right notes and ticks.
 Theorems: props/C16.v (model/Reserve.v + model/F32.v).
 Correspondence (unit level, public Track/Song methods): f32 arithmetic (f32ops), calc_{v,q,t,o,l}_on_note,
-calc_v_on_time, write_cc_on_time, write_pb_on_time, set/remove/write_cc_on_note(_wave), rand, calc_rand_value.
+calc_v_on_time, write_cc_on_time, write_pb_on_time, set/remove/write_cc_on_note(_wave), rand, calc_rand_value; and the
+runner's use of them (exec_note, exec_note_n, reservation arms; model exec_cmds) against the events pushed by lex+exec.
 Oracle (compile level, implementation only, independent of the model): sources with reservations are compiled,
 the file is decoded by the extracted SMF specification decoder (core driver) and note velocities / gates /
 start ticks / keys / controller and bend events are compared with expectations computed here from the property
@@ -11,17 +12,21 @@ import vlib
 
 COQ_TARGET = "props/C16.v"
 DRIVERS = ["reserve", "core"]
-THEOREMS = ["C16_on_note"]
+THEOREMS = ["C16_on_note", "C16_on_note_nth", "C16_on_cycle", "C16_cancel", "C16_arms", "C16_cc_on_note", "C16_cc_on_note_set",
+            "C16_ramp_ticks", "C16_pb_ramp_ticks", "C16_ticks_exact", "C16_ramp_start", "C16_ramp_range", "C16_pb_ramp_range",
+            "C16_v_on_time", "C16_v_on_time_locate", "C16_random_width", "C16_random_reproducible", "C16_random_nonzero"]
 RULE = ("unit level: random value lists (None / empty / 1..8 values), cycle flag, start index, 0..14 calls with random "
         "defaults; segment lists of 1..3 (lo,hi,len) with len -3..400, frequencies -2..12, time bases 16..480, "
         "controller op sequences (set/remove/write/wave), seeds over the whole u32 range, widths -3..40; f32: "
-        "thousands of quadruples from a boundary pool and +-20000. compile level: generated sources per clause of the "
+        "thousands of quadruples from a boundary pool and +-20000; command programs (reservation arms, plain commands, "
+        "Random widths, lettered/numbered notes, rests) run by the model's exec_cmds against the events pushed by "
+        "lex+exec. compile level: generated sources per clause of the "
         "property (onNote/onCycle for v q t o l with lettered and numbered notes on track 1..3, cancellation, "
         "controller onNote, controller/bend onTime with 1..3 segments and explicit Frequency, v.onTime, x.Random). "
         "non-trivial = distinct case with a non-empty reservation and at least 2 notes / 2 events")
 TRUSTED = ["Coq Floats.SpecFloat (binary32 parameters) as the meaning of Rust f32; tied by the f32ops correspondence",
            "isize is 64 bit; 64-bit overflow of index/time arithmetic is not modelled"]
-ASSUMES = ["C16_ramp_start is stated for |lo|,|hi-lo| <= 32768 and 0 < len <= 65536 (f32 conversions evaluated by "
+ASSUMES = ["C16_ramp_start is stated for |lo|,|hi-lo| <= 65536 and 0 < len <= 65536 (f32 conversions evaluated by "
            "vm_compute on that range)",
            "C16_v_on_time assumes segment lengths >= 0",
            "numbered notes consume an o.onNote value without changing their absolute pitch (oracle does not assert their key)"]
@@ -111,6 +116,104 @@ def run_units(ctx, lines, origin):
             ctx.disagree(line.split("\t")[0], line[:2000], g[:600], m[:600])
         ctx.count(origin + ":" + line.split("\t")[0], nontrivial_unit(line, g))
     return got
+
+
+# ------------------------------------------------------------------------------------------------
+# (a') the runner's use of the methods: exec_note / exec_note_n / reservation arms (model `exec_cmds`) against the
+#      events that lex + exec push on track 0 (compile_ev reports them in push order)
+# ------------------------------------------------------------------------------------------------
+LETTERS = [("c", 0), ("d", 2), ("e", 4), ("f", 5), ("g", 7), ("a", 9), ("b", 11)]
+LTICKS = {1: 384, 2: 192, 4: 96, 8: 48, 16: 24}
+
+
+def gen_program(rng):
+    """random command sequence -> (MML source, model command field)"""
+    src, cmds = [], []
+    vpool = {"v": (-5, 140), "q": (-5, 130), "t": (-6, 30), "o": (-1, 11), "l": (-1, 200)}
+    for _ in range(rng.randint(1, 14)):
+        r = rng.random()
+        if r < 0.18:
+            w = rng.choice("vqtol")
+            lo, hi = vpool[w]
+            ia = [rng.randint(lo, hi) for _ in range(rng.randint(1, 5))]
+            cyc = rng.random() < 0.4
+            src.append("%s.%s(%s)" % (w, "onCycle" if cyc else "onNote", ",".join(map(str, ia))))
+            cmds.append("N:%s:%d:%s" % (w, cyc, ",".join(map(str, ia))))
+        elif r < 0.23:
+            ia = []
+            for _ in range(rng.randint(1, 3)):
+                ia += [rng.randint(-10, 140), rng.randint(-10, 140), rng.choice([0, 48, 96, 192, rng.randint(1, 300)])]
+            src.append("v.onTime(%s)" % ",".join(map(str, ia)))
+            cmds.append("T:%s" % ",".join(map(str, ia)))
+        elif r < 0.31:
+            w = rng.choice("vqtol")
+            if w == "l":
+                n = rng.choice(list(LTICKS))
+                src.append("l%d" % n)
+                cmds.append("P:l:%d" % LTICKS[n])
+            else:
+                lo, hi = vpool[w]
+                v = rng.randint(max(lo, 0) if w != "t" else lo, hi)
+                src.append("%s%d" % (w, v))
+                cmds.append("P:%s:%d" % (w, v))
+        elif r < 0.39:
+            w = rng.choice("vqto")
+            x = rng.choice([0, 1, 2, 3, 5, 10, 20, -2])
+            src.append("%s.Random=%d" % (w, x))
+            cmds.append("R:%s:%d" % (w, x))
+        elif r < 0.49:
+            no = rng.choice([1, 7, 10, 11])
+            kind = rng.choice(["ct", "cn", "cn", "cw", "F", "cc"])
+            if kind in ("ct", "cw"):
+                ia = []
+                for _ in range(rng.randint(1, 2)):
+                    ia += [rng.randint(-10, 140), rng.randint(-10, 140), rng.choice([0, 3, 24, 96, rng.randint(1, 120)])]
+                src.append("y%d.%s(%s)" % (no, "onTime" if kind == "ct" else "onNoteWave", ",".join(map(str, ia))))
+                cmds.append("%s:%d:%s" % (kind, no, ",".join(map(str, ia))))
+            elif kind == "cn":
+                ia = [rng.randint(0, 127) for _ in range(rng.randint(1, 5))]
+                src.append("y%d.onNote(%s)" % (no, ",".join(map(str, ia))))
+                cmds.append("cn:%d:%s" % (no, ",".join(map(str, ia))))
+            elif kind == "F":
+                f = rng.choice([0, 1, 2, 3, 4, 8, -1])
+                src.append("y%d.Frequency(%d)" % (no, f))
+                cmds.append("F:%d" % f)
+            else:
+                v = rng.randint(0, 127)
+                src.append("y%d,%d" % (no, v))
+                cmds.append("cc:%d:%d" % (no, v))
+        elif r < 0.53:
+            big = rng.randint(0, 1)
+            ia = [rng.randint(-8192, 8191) if big else rng.randint(0, 127), rng.randint(-8192, 9000) if big else rng.randint(0, 130),
+                  rng.choice([0, 3, 24, 96, rng.randint(1, 120)])]
+            src.append("%s.onTime(%s)" % ("PB" if big else "p", ",".join(map(str, ia))))
+            cmds.append("pb:%d:%s" % (big, ",".join(map(str, ia))))
+        elif r < 0.58:
+            src.append("r")
+            cmds.append("r")
+        else:
+            for _ in range(rng.randint(1, 4)):
+                if rng.random() < 0.25:
+                    key = rng.choice([60, 62, 36, 72, 0, 127, 130])
+                    src.append("n%d" % key)
+                    cmds.append("nn:%d" % key)
+                else:
+                    c, pc = rng.choice(LETTERS)
+                    src.append(c)
+                    cmds.append("n:%d" % pc)
+    return " ".join(src) + " ", "/".join(cmds)
+
+
+def run_programs(ctx, progs, origin):
+    got = ctx.impl(["compile_ev\t%s" % vlib.enc_text(s) for s, _ in progs], stall=20)
+    mod = ctx.model(["run\t0\t96\t%s" % c for _, c in progs])
+    for (src, cmds), g, m in zip(progs, got, mod):
+        f = g.split("\t")
+        impl_events = f[2].split("/")[0] if len(f) >= 4 else g[:40]
+        model_events = m.split("\t")[0]
+        if impl_events != model_events:
+            ctx.disagree("exec_note/arms (run)", "%s  [%s]" % (src, cmds), impl_events[:800], model_events[:800])
+        ctx.count(origin + ":run", src if impl_events.count(";") >= 2 else None)
 
 
 # ------------------------------------------------------------------------------------------------
@@ -581,6 +684,14 @@ FIXED = [  # the sources named in the property's description, with explicit expe
     {"src": "M.onNote(1,2) n60 c", "cc": [1, [[0, 1], [96, 2]]]},
     {"src": "o.onNote(3,4) n60 n62 c e", "key": [60, 62, 48, 52]},
     {"src": "TR(2) v.onCycle(1,2,3) cdefgab", "vel": [1, 2, 3, 1, 2, 3, 1]},
+    {"src": "v.onTime(0,127,!1) cdefgab>c", "vel": [0, 31, 63, 95, 100, 100, 100, 100]},
+    {"src": "PB.onTime(-8192,8191,96) c", "bend_max": 15871},
+    {"src": "p.onTime(0,127,96) c", "bend_max": 15748},
+    {"src": "v.Random=10 cccccc", "count": 6},
+    {"src": "q.onCycle(50,100) c q80 d e", "dur": [48, 76, 76]},
+    {"src": "l.onNote(48,24) c l8 d e", "start": [0, 48, 96], "dur": [43, 43, 43]},
+    {"src": "o.onNote(4,6) c o3 c c", "key": [48, 36, 36]},
+    {"src": "r t.onCycle(3,6) c t0 d e", "start": [99, 192, 288]},
 ]
 
 
@@ -644,7 +755,7 @@ def load_corpus():
 
 def run(ctx):
     rng = ctx.rng
-    scale = 1 if ctx.tier == "quick" else 12
+    scale = 1 if ctx.tier == "quick" else 40
     # corpus first
     corpus = load_corpus()
     units = [o["unit"] for o in corpus if "unit" in o]
@@ -657,6 +768,7 @@ def run(ctx):
     run_oracle(ctx, [Case(o["src"], "witness", (lambda d, o=o: check_fixed(o, d))) for o in fixed], "corpus")
     # (a) unit-level correspondence
     run_units(ctx, unit_cases(rng, scale), "unit")
+    run_programs(ctx, [gen_program(rng) for _ in range(600 * scale)], "unit")
     # (b) compile-level oracle
     cases = []
     total = 700 * scale
@@ -682,3 +794,10 @@ def replay(ctx, obj):
             print("cc   :", [(t, a) for t, k, a in tr if k == "CC"][:60])
             print("bend :", bends_of(tr)[:60])
     print("observed:", f.get("observed"), "expected:", f.get("expected"))
+    # decide again: the generators are deterministic in (seed, tier), so re-running them re-evaluates the recorded input
+    if obj.get("seed") is not None:
+        import random
+        ctx.seed = obj["seed"]
+        ctx.rng = random.Random(obj["seed"])
+        ctx.tier = obj.get("tier", ctx.tier)
+        run(ctx)
